@@ -132,8 +132,8 @@ PRIORITY = {
     "pyairtouch/comms/crc16.py": ["C06"],
     "pyairtouch/comms/encoding.py": ["C05", "C03"],
     "pyairtouch/comms/__init__.py": ["C17", "C03", "C07"],
-    "pyairtouch/at4/api.py": ["C10", "C11", "C09", "C14", "C12", "C19"],
-    "pyairtouch/at5/api.py": ["C10", "C11", "C09", "C14", "C12", "C19"],
+    "pyairtouch/at4/api.py": ["C10", "C11", "C09", "C14", "C12", "C19", "C08", "C02", "C15"],
+    "pyairtouch/at5/api.py": ["C10", "C11", "C09", "C14", "C12", "C19", "C08", "C02", "C15"],
 }
 
 
@@ -234,6 +234,15 @@ def main():
             except ValueError:
                 pass
     jobs = [j for j in jobs if (j[0], j[1]) not in done]
+    again = opt("--survivors-of")
+    if again:
+        # second pass: only the mutants recorded as survivors in that file, against --checks
+        surv = set()
+        for l in open(again):
+            r = json.loads(l)
+            if r.get("status") == "passes-tests" and not r.get("noticed"):
+                surv.add((r["file"], r["mutation"]))
+        jobs = [j for j in jobs if (j[0], j[1]) in surv]
     per = max(2, 16 // par)
     jobs = [tuple(j) + (per, i) for i, j in enumerate(jobs)]
     print(f"{len(jobs)} mutants selected", flush=True)
